@@ -288,10 +288,62 @@ def table_bound():
     """K of C01_match_calls_linear computed from the current parser.py: at most one pass over a
     state's tests per line plus, per guarded branch visit, one look-ahead visit of each line"""
     from translate import parser_table
-    t = parser_table.extract(open(os.path.join(core.REPO, "python/gherkin/parser.py"), encoding="utf8").read())
+    try:
+        t = parser_table.extract(open(os.path.join(core.REPO, "python/gherkin/parser.py"), encoding="utf8").read())
+    except Exception:
+        return 20      # the constant proved for the baseline table (C01_work_per_token); the translator failure is reported separately
     max_tests = max(len(r["branches"]) for r in t["rows"])
     la = max((len(l["expected"]) + len(l["skip"]) for l in t["lookaheads"]), default=0)
     return max_tests + len(t["lookaheads"]) * la
+
+
+HANG_PROBE = r"""
+import sys, json
+sys.path.insert(0, %r)
+from harness import impl
+docs = json.load(sys.stdin)
+for i, d in enumerate(docs):
+    print("start", i, flush=True)
+    for stop in (False, True):
+        impl.parse(d, stop)
+    impl.pickles(d)
+print("done", flush=True)
+"""
+
+
+def hang_probe(docs, per_doc_timeout=8.0):
+    """run potentially pathological inputs in a child process; a document that does not finish
+    within the timeout is reported (a C-level regular-expression loop cannot be interrupted in-process)"""
+    import subprocess, time, threading, queue
+    hung = []
+    todo = list(docs)
+    while todo:
+        p = subprocess.Popen(["/venv/bin/python", "-c", HANG_PROBE % core.VERIF], stdin=subprocess.PIPE,
+                             stdout=subprocess.PIPE, stderr=subprocess.DEVNULL, text=True,
+                             env={**os.environ, "PYTHONPATH": core.VERIF + ":" + os.path.join(core.REPO, "python")})
+        p.stdin.write(json.dumps(todo))
+        p.stdin.close()
+        q = queue.Queue()
+        threading.Thread(target=lambda: [q.put(l) for l in p.stdout] + [q.put(None)], daemon=True).start()
+        cur = -1
+        done = False
+        while True:
+            try:
+                line = q.get(timeout=per_doc_timeout)
+            except queue.Empty:
+                p.kill()
+                hung.append(todo[cur] if cur >= 0 else todo[0])
+                todo = todo[max(cur, 0) + 1:]
+                break
+            if line is None or line.startswith("done"):
+                done = True
+                break
+            if line.startswith("start"):
+                cur = int(line.split()[1])
+        if done:
+            p.wait()
+            break
+    return hung
 
 
 def run_C01(ctx: Ctx) -> Result:
@@ -302,7 +354,15 @@ def run_C01(ctx: Ctx) -> Result:
     docs += ["Feature: f\n" + "  Scenario: s\n    Given a\n" * ctx.n(300, 5000), "@t\n" * ctx.n(400, 4000) + "Feature: f\n",
              "x\n" * 40, "Feature:f\n@a\n#c\n\n" * 30]
     K = table_bound()
+    # nothing hangs: every document is first parsed in a child process under a watchdog (a C-level
+    # regular-expression loop cannot be interrupted in-process); documents that hang are violations
+    # and are kept away from the in-process streams
+    hung_docs = hang_probe(docs)
+    docs = [d for d in docs if d not in set(hung_docs)]
     res = streams.parse_stream(docs, proj_outcome, known=ctx.known_seen, dialects=("en",))
+    for src in hung_docs:
+        res.fail("hang", {"source": src, "stop": False, "default_dialect": "en"}, "no result within 8 s", "a result",
+                 "parsing this document does not terminate within 8 seconds")
     # direct oracle on the implementation: outcome form and linear work
     checked = 0
     for src in docs:
@@ -331,6 +391,19 @@ def run_C01(ctx: Ctx) -> Result:
             if bad:
                 res.fail("parse", case, proj_outcome(o), "allowed outcome form", bad)
     res.stats["outcome_form_checked"] = checked
+    # nothing hangs: inputs built to make each modelled regular expression backtrack, in a child process
+    suspects = []
+    for n in (30, 60):
+        suspects += ["# language: " + "a" * n + "1\nFeature: f\n", "#language:" + "a-" * n + "!\n", "# language: " + "a_" * n + " x\n",
+                     "|" + "\\" * n + "\n", "| " + " " * n + "x" + " " * n + "\n", "@" + "a" * n + " #" + " " * n + "\n",
+                     "@a" + " @b" * n + " c\n", "Feature: f\n  Scenario: s\n    Given a\n      |" + " a |" * n + "\n",
+                     " " * n + "#" + " " * n + "language" + " " * n + ":" + " " * n + "en" + " " * n + "x\n",
+                     "Feature:" + " " * (n * 4) + "\n", "Feature: f\n  Scenario Outline: <" + "a" * n + "\n    Given <" + "(" * n + ">\n    Examples:\n      | " + "(" * n + " |\n      | " + "\\\\" * n + " |\n"]
+    hung = hang_probe(suspects)
+    res.stats["hang_probe_inputs"] = len(suspects)
+    for src in hung:
+        res.fail("parse", {"source": src, "stop": False, "default_dialect": "en"}, "no result within 8 s", "a result",
+                 "parsing this short document does not terminate within 8 seconds (pathological matching work)")
     res.merge(streams.pickles_stream(streams.doc_mix(rng, ctx.n(300, 3000), noisy=0.1, mutated=0.1),
                                      lambda o: {k: v for k, v in o.items() if k == "crash"}))
     res.merge(streams.events_stream(rng, ctx.n(150, 1500),
@@ -558,6 +631,35 @@ def run_C05(ctx: Ctx) -> Result:
         docs.append(gens.DocGen(ctx.rng, name).document())
     res.merge(streams.parse_stream(docs, proj_keywords, modes=(False,)))
     res.merge(streams.parse_stream([d for d in docs[:: ctx.n(3, 1)]], proj_keywords, modes=(False,), dialects=("fr", "ru", "em")))
+    # a default dialect that shares step keywords with the dialect the header selects (e.g. no / da)
+    shared = []
+    for a in names:
+        ka = set(sum((D[a][r] for r in step_roles), [])) - {"* "}
+        for b in names:
+            if a < b and ka & (set(sum((D[b][r] for r in step_roles), [])) - {"* "}):
+                shared.append((a, b))
+    ctx.rng.shuffle(shared)
+    for a, b in shared[: ctx.n(40, 400)]:
+        for dflt, hdr in ((a, b), (b, a)):
+            doc = gens.DocGen(ctx.rng, hdr).document()
+            res.merge(streams.parse_stream([doc], proj_keywords, modes=(False,), dialects=(dflt,)))
+    # one TokenMatcher instance through a sequence of documents with and without headers
+    seq = []
+    for name in ctx.rng.sample(names, ctx.n(12, 60)):
+        seq.append(gens.DocGen(ctx.rng, name).document())
+        seq.append("Feature: plain\n  Scenario: s\n    Given a\n    When b\n    Then c\n    And d\n    But e\n    * f\n")
+    m_ = impl.TokenMatcher("en")
+    outs = driver.batch([driver.request("parse", False, "en", 0, d) for d in seq])
+    for pos, (d, mo) in enumerate(zip(seq, outs)):
+        if impl.is_existing_path(d):
+            continue
+        io = impl.parse(d, False, "en", matcher=m_)
+        res.note({"history_position": pos, "source": d}, True)
+        a_, b_ = proj_keywords(io), proj_keywords(mo)
+        if a_ != b_:
+            res.fail("history", {"source": d, "earlier_documents_through_same_matcher": seq[max(0, pos - 2):pos]}, a_, b_,
+                     "keywords/types differ when the TokenMatcher has been used before: " + str(first_diff(a_, b_)))
+            break
     return res
 
 
@@ -855,6 +957,12 @@ def run_C15(ctx: Ctx) -> Result:
     # model side: the same histories through the model give the fresh results too (ids offset)
     # interleavings at token-read granularity
     res.merge(interleave_check(ctx, pool))
+    # one Compiler (and TokenMatcher) through sequences of documents: each result as from fresh instances
+    hist = streams.corpus_docs() + [gens.permuted_examples(rng) for _ in range(ctx.n(150, 1500))] + \
+        streams.doc_mix(rng, ctx.n(200, 2000), noisy=0.0, mutated=0.0)
+    hist += ["Feature: f\n  Scenario Outline: o\n    And first\n    But second\n    Examples:\n      | a |\n      | 1 |\n      | 2 |\n"] * 2
+    rng.shuffle(hist)
+    res.merge(streams.pickles_stream(hist, pickles_all, shared=True))
     # determinism and purity of compile
     for src in pool + streams.corpus_docs()[:: ctx.n(4, 1)]:
         a, b = impl.pickles(src), impl.pickles(src)
@@ -918,11 +1026,12 @@ def interleave_check(ctx: Ctx, pool) -> Result:
         sched = [rng.randrange(n) for _ in range(total * 2)]
         gate = Gate(sched, n)
         outs = [None] * n
+        use_matcher = rng.random() < 0.5
 
         def work(i):
             try:
                 p = impl.Parser(impl.RecordingBuilder(impl.id_gen(0)))
-                m = impl.CountingMatcher("en")
+                m = impl.CountingMatcher("en") if use_matcher else None   # None: the parser's own default matcher
                 try:
                     doc = p.parse(make_scanner(gate, i, docs[i]), m)
                     outs[i] = {"ok": doc}
@@ -1220,6 +1329,27 @@ def shape_errors(env):
 def run_C17(ctx: Ctx) -> Result:
     res = streams.events_stream(ctx.rng, ctx.n(500, 5000))
     rng = ctx.rng
+    # the source envelope carries the file's text unchanged (whatever its line endings)
+    from gherkin.stream.source_events import SourceEvents
+    d_ = os.path.join(ctx.scratch.dir, "src")
+    os.makedirs(d_, exist_ok=True)
+    texts = ["Feature: f\r\n  Scenario: s\r\n    Given a\r\n", "Feature: f\n  Scenario: s\r\n    Given a\r", "Feature: f\rx\n",
+             "\ufeffFeature: bom\n", "Feature: é😀\n\n\n", ""] + [gens.structured(rng).replace("\n", "\r\n") for _ in range(ctx.n(10, 100))]
+    paths = []
+    for k, t in enumerate(texts):
+        try:
+            raw = t.encode("utf8")
+        except UnicodeEncodeError:
+            continue
+        pth = os.path.join(d_, f"s{k}.feature")
+        open(pth, "wb").write(raw)
+        paths.append((pth, raw.decode("utf8")))
+    for (pth, want), ev in zip(paths, SourceEvents([p for p, _ in paths]).enum()):
+        res.note({"file_text": want}, True)
+        got = ev["source"]
+        if got.get("data") != want or got.get("uri") != pth or got.get("mediaType") != "text/x.cucumber.gherkin+plain":
+            res.fail("file", {"file_text": want}, got, {"uri": pth, "data": want, "mediaType": "text/x.cucumber.gherkin+plain"},
+                     "source envelope does not carry the file's text unchanged: " + str(first_diff(got.get("data"), want)))
     extra = ["Feature: f\n  Scenario Outline: o\n    And first is a conjunction\n    Examples:\n      | a |\n      | 1 |\n"]
     for _ in range(ctx.n(400, 4000)):
         opts = tuple(rng.random() < 0.6 for _ in range(3))
@@ -1272,8 +1402,24 @@ def run_C18(ctx: Ctx) -> Result:
     for _ in range(ctx.n(500, 5000)):
         docs.append("Feature: f\n  Scenario Outline: o\n    Given <a>\n" +
                     "".join(pieces[ctx.rng.choice("TTCBESRXW")] for _ in range(ctx.rng.randrange(2, 14))))
+    for n_ in (15, 16, 17, 18, 25, 40, 70):     # long runs through the look-ahead queue
+        for end in "ESRX":
+            docs.append("Feature: f\n  Scenario Outline: o\n    Given <a>\n" + pieces["T"] +
+                        "".join(pieces[ctx.rng.choice("TCB")] for _ in range(n_)) + pieces[end])
     docs += streams.corpus_docs() + streams.doc_mix(ctx.rng, ctx.n(500, 5000))
     res.merge(streams.parse_stream(docs, proj_builds, modes=(False,)))
+    # one Parser instance through the whole sequence, every document twice (equal errors recur)
+    shared_parser = impl.Parser(impl.RecordingBuilder(impl.id_gen(0)))
+    for src in [d for d in docs[:: ctx.n(3, 1)] for _ in (0, 1)]:
+        if impl.is_existing_path(src):
+            continue
+        o = impl.parse(src, False, parser=shared_parser)
+        f_ = impl.parse(src, False)
+        a_, b_ = proj_builds(o), proj_builds(f_)
+        if a_ != b_:
+            res.fail("history", {"source": src, "note": "second and later parses through one Parser instance"}, a_, b_,
+                     "a reused Parser delivers/reports different lines than a fresh one: " + str(first_diff(a_, b_)))
+            break
     # direct oracle: accepted → builds are lines 1..n then EOF; rejected (below cap) → partition
     for src in docs:
         if impl.is_existing_path(src):
@@ -1312,6 +1458,21 @@ def run_C18(ctx: Ctx) -> Result:
 def run_C19(ctx: Ctx) -> Result:
     from gherkin.token_matcher_markdown import GherkinInMarkdownTokenMatcher
     res = Result()
+    shared = {}
+
+    def md_match(kind, dialect, line):
+        """ONE matcher instance per dialect serves the whole enumeration (recognition of a line must
+        not depend on what the matcher saw before)"""
+        m = shared.get(dialect)
+        if m is None:
+            m = shared[dialect] = GherkinInMarkdownTokenMatcher(dialect)
+        tok = impl.Token(impl.GherkinLine(line, 1), {"line": 1})
+        try:
+            r = getattr(m, "match_" + kind)(tok)
+            r = "matched" if r else "no"
+        except Exception as e:
+            r = f"crash {type(e).__name__}: {e}"
+        return {"res": r, "token": impl.token_json(tok)}
     D = impl.dialects()
     title_roles = [("feature", "FeatureLine"), ("rule", "RuleLine"), ("background", "BackgroundLine"),
                    ("scenario", "ScenarioLine"), ("scenarioOutline", "ScenarioLine"), ("examples", "ExamplesLine")]
@@ -1333,13 +1494,14 @@ def run_C19(ctx: Ctx) -> Result:
     for ind in range(0, 9):
         for row in ("| a | b |", "|---|:-:|", "| - |", "|a|---|", "||"):
             cases.append(("TableRow", "en", " " * ind + row + "\n"))
-    for line in ["`@a`", "  `@a` `@b`", "text `@a` more `@b c` `x` `@`", "no tags", "`@a``@b`", "\t`@é` `@😀`"]:
+    for line in ["`@a`", "  `@a` `@b`", "text `@a` more `@b c` `x` `@`", "no tags", "`@a``@b`", "\t`@é` `@😀`",
+                 "`@smoke-slow` `@smoke`", "`@a` `@a`", "mail bob@wip.example or see `@wip`", "  `@x` @x `@x`", "`@ab` `@b` `@a`"]:
         cases.append(("TagLine", "en", line + "\n"))
     reqs = [driver.request("mdmatch", impl.KINDS.index(k), d, l) for k, d, l in cases]
     outs = driver.batch(reqs)
     for (k, d, l), m in zip(cases, outs):
         case = {"kind": k, "dialect": d, "line": l}
-        i = impl.match(k, d, d, 0, None, l, matcher_cls=GherkinInMarkdownTokenMatcher)
+        i = md_match(k, d, l)
         pi = {"res": i["res"], "keyword": i["token"]["keyword"], "text": i["token"]["text"], "column": i["token"]["column"],
               "items": i["token"]["items"]} if i["res"] == "matched" else {"res": i["res"]}
         pm = {"res": m["res"], "keyword": m["token"]["keyword"], "text": m["token"]["text"], "column": m["token"]["column"],
@@ -1361,11 +1523,11 @@ GEN_RULE = ("cases are documents from the acceptance corpus, a structured mostly
             "Unicode), line mutations of those, and noisy line soup; distinct = distinct canonical input; ")
 
 PROPS = {
-    "C01": dict(modules=["C01"], run=run_C01, translators=["parser_table", "dialects"],
+    "C01": dict(modules=["C01", "C01Linear"], run=run_C01, translators=["parser_table", "dialects"],
                 rule=GEN_RULE + "plus Unicode soup with surrogates/NUL and all strings ≤ L over a 10-symbol alphabet; non-trivial = any input"),
     "C02": dict(modules=["C02", "C02Tree", "C02Siblings"], run=run_C02, translators=["parser_table", "grammar", "siblings"], exhaustive=True,
                 rule="all line-kind sequences up to length L through the real Parser (stub matcher) vs the grammar reading (Spec.Sentence) and the table model's events; sampled longer ones; real-text documents; non-trivial = accepted"),
-    "C03": dict(modules=["C03"], run=run_C03, translators=["parser_table", "dialects"], rule=GEN_RULE + "non-trivial = accepted document"),
+    "C03": dict(modules=["C03", "C03Tree"], run=run_C03, translators=["parser_table", "dialects"], rule=GEN_RULE + "non-trivial = accepted document"),
     "C04": dict(modules=["C04"], run=run_C04, translators=["parser_table", "dialects"], rule=GEN_RULE + "plus all rows/tag lines ≤ L over the distinguishing classes; non-trivial = any"),
     "C05": dict(modules=["C05"], run=run_C05, translators=["dialects", "dialects_master"], exhaustive=True,
                 rule="complete enumeration dialect × keyword × role × layout through the real matcher; header spellings; one generated document per dialect; non-trivial = matched"),
@@ -1376,7 +1538,7 @@ PROPS = {
                 rule="all (header, template) pairs with templates ≤ L over an adversarial alphabet × 14 headers; synthetic and parsed outlines; non-trivial = substitution changed the text"),
     "C10": dict(modules=["C10"], run=make_compile_run(proj_pickle_types, extra_C10), exhaustive=True,
                 rule="all keyword-type sequences ≤ L over 5 types × background split × {plain, outline} as real text; synthetic ASTs; non-trivial = at least one pickle"),
-    "C11": dict(modules=["C11", "C11Builder"], run=make_compile_run(proj_pickle_ids, extra_C11), rule=GEN_RULE + "plus sequences of sources through one stream; non-trivial = ids were drawn"),
+    "C11": dict(modules=["C11", "C11Builder", "C11Tree"], run=make_compile_run(proj_pickle_ids, extra_C11), rule=GEN_RULE + "plus sequences of sources through one stream; non-trivial = ids were drawn"),
     "C12": dict(modules=["C12"], run=run_C12, exhaustive=True,
                 rule="every row string ≤ L over {|, \\, n, space, tab, other} plus Unicode rows; generated ragged/rectangular tables; non-trivial = at least one cell"),
     "C13": dict(modules=["C13"], run=run_C13, translators=["parser_table"], rule="doc strings with content lines from every Gherkin-looking kind, both delimiters, all indentation relations; matcher in the content state; non-trivial = accepted"),
@@ -1386,7 +1548,7 @@ PROPS = {
                 rule="all ordered pairs (thorough: triples) of 12 state-perturbing documents through one Parser+TokenMatcher, sampled longer histories, random schedules of 2–3 concurrent parses gated at TokenScanner.read; non-trivial = any"),
     "C16": dict(modules=["C16"], run=run_C16, rule=GEN_RULE + "× {CRLF, final newline, trailing blanks, indentation, blank line, comment line} at sampled admissible positions; file loading; non-trivial = any"),
     "C17": dict(modules=["C17"], run=run_C17, rule="sequences of 1–3 sources × 8 option combinations through one GherkinEvents; non-trivial = at least one envelope"),
-    "C18": dict(modules=["C18"], run=run_C18, translators=["parser_table"], exhaustive=True,
+    "C18": dict(modules=["C18", "C18Order"], run=run_C18, translators=["parser_table"], exhaustive=True,
                 rule="all tag/comment/blank runs ≤ L before Examples/Scenario/Rule/unexpected lines as real text, sampled longer arrangements, corpus token listings; non-trivial = any"),
     "C19": dict(modules=["C19"], run=run_C19, translators=["dialects"], exhaustive=True,
                 rule="complete enumeration dialect × keyword × header depth 0–7 / bullet × indentation through the real Markdown matcher; table indentation 0–8; tag lines; non-trivial = matched"),
